@@ -1,7 +1,8 @@
 /-
   C16 helper lemmas, lexical level of the JSON round trip (`PypyrModel/Codec.lean`, `Codec.Json`):
-  whitespace/indentation, string literals (`escStr` / `pStr`), integers (`prInt` / `pNumber`),
-  keyword literals.
+  whitespace/indentation for every `indent` setting (`nl` / `sep`), string literals for both
+  `ensure_ascii` settings (`escStr` / `pStr`: short escapes, `\\uXXXX`, surrogate pairs), integers
+  (`prInt` / `pNumber`). Floats: `Props/Lemmas/C16_JsonFloat.lean`.
 -/
 import PypyrModel.Codec
 
@@ -14,8 +15,13 @@ theorem skipWs_replicate (k : Nat) (X : List Char) : skipWs (List.replicate k ' 
   | zero => simp
   | succ k ih => simp [List.replicate_succ, skipWs, isWs, ih]
 
-theorem skipWs_indentOf (l : Nat) (X : List Char) : skipWs (indentOf l ++ X) = skipWs X := by
-  simp [indentOf, skipWs, isWs, skipWs_replicate]
+theorem skipWs_nl (o : Opts) (l : Nat) (X : List Char) : skipWs (nl o l ++ X) = skipWs X := by
+  unfold nl
+  split <;> simp [skipWs, isWs, skipWs_replicate]
+
+theorem skipWs_sep (o : Opts) (l : Nat) (X : List Char) : skipWs (sep o l ++ X) = skipWs X := by
+  unfold sep
+  split <;> simp [skipWs, isWs, skipWs_replicate]
 
 theorem skipWs_cons_of_not_ws (c : Char) (X : List Char) (h : isWs c = false) : skipWs (c :: X) = c :: X := by
   simp [skipWs, h]
@@ -35,15 +41,66 @@ theorem pStrM_u_lt (k v a : Nat) (hi : Option Nat) (cs acc : List Char) (ha : a 
     pStrM (.u k v hi) (hexDigit a :: cs) acc = pStrM (.u (k + 1) (v * 16 + a) hi) cs acc := by
   simp [pStrM, hexVal_hexDigit a ha, hk]
 
-theorem pStrM_u_last (v a : Nat) (cs acc : List Char) (ha : a < 16) (hn : v * 16 + a < 0xD800) :
+/-- The last of four hex digits, no high surrogate pending: a character of the BMP. -/
+theorem pStrM_u_last (v a : Nat) (cs acc : List Char) (ha : a < 16)
+    (hn : v * 16 + a < 0xD800 ∨ 0xDFFF < v * 16 + a) :
     pStrM (.u 3 v none) (hexDigit a :: cs) acc = pStrM .norm cs (Char.ofNat (v * 16 + a) :: acc) := by
   have h1 : ¬ (55296 ≤ v * 16 + a ∧ v * 16 + a ≤ 56319) := by omega
   have h2 : ¬ (56320 ≤ v * 16 + a ∧ v * 16 + a ≤ 57343) := by omega
   simp [pStrM, hexVal_hexDigit a ha, h1, h2]
 
-/-- One escaped character is read back as that character. -/
-theorem pStrM_escChar (c : Char) (X acc : List Char) :
-    pStrM .norm (escChar c ++ X) acc = pStrM .norm X (c :: acc) := by
+/-- … a high surrogate: the scanner waits for the low one. -/
+theorem pStrM_u_last_hi (v a : Nat) (cs acc : List Char) (ha : a < 16)
+    (hn : 0xD800 ≤ v * 16 + a ∧ v * 16 + a ≤ 0xDBFF) :
+    pStrM (.u 3 v none) (hexDigit a :: cs) acc = pStrM (.hi1 (v * 16 + a)) cs acc := by
+  simp [pStrM, hexVal_hexDigit a ha, hn]
+
+/-- … the low surrogate after a high one: the pair is one character. -/
+theorem pStrM_u_last_lo (v a h0 : Nat) (cs acc : List Char) (ha : a < 16)
+    (hn : 0xDC00 ≤ v * 16 + a ∧ v * 16 + a ≤ 0xDFFF) :
+    pStrM (.u 3 v (some h0)) (hexDigit a :: cs) acc =
+      pStrM .norm cs (Char.ofNat (0x10000 + (h0 - 0xD800) * 1024 + (v * 16 + a - 0xDC00)) :: acc) := by
+  simp [pStrM, hexVal_hexDigit a ha, hn]
+
+theorem u4_value (n : Nat) (h : n < 0x10000) :
+    n / 4096 < 16 ∧ n / 256 % 16 < 16 ∧ n / 16 % 16 < 16 ∧ n % 16 < 16 ∧
+    (((0 * 16 + n / 4096) * 16 + n / 256 % 16) * 16 + n / 16 % 16) * 16 + n % 16 = n := by
+  omega
+
+/-- `\uXXXX` of a BMP code point that is not a surrogate reads back as that code point. -/
+theorem pStrM_u4_bmp (n : Nat) (X acc : List Char) (h : n < 0xD800 ∨ (0xDFFF < n ∧ n < 0x10000)) :
+    pStrM .norm (u4 n ++ X) acc = pStrM .norm X (Char.ofNat n :: acc) := by
+  obtain ⟨h1, h2, h3, h4, hv⟩ := u4_value n (by omega)
+  show pStrM .norm ('\\' :: 'u' :: hexDigit (n / 4096) :: hexDigit (n / 256 % 16) ::
+    hexDigit (n / 16 % 16) :: hexDigit (n % 16) :: X) acc = _
+  rw [pStrM_bs_u, pStrM_u_lt _ _ _ _ _ _ h1 (by decide), pStrM_u_lt _ _ _ _ _ _ h2 (by decide),
+    pStrM_u_lt _ _ _ _ _ _ h3 (by decide), pStrM_u_last _ _ _ _ h4 (by omega), hv]
+
+/-- `\ud8xx\udcxx` reads back as the one character the pair encodes. -/
+theorem pStrM_u4_pair (hi lo : Nat) (X acc : List Char) (hh : 0xD800 ≤ hi ∧ hi ≤ 0xDBFF)
+    (hl : 0xDC00 ≤ lo ∧ lo ≤ 0xDFFF) :
+    pStrM .norm (u4 hi ++ (u4 lo ++ X)) acc =
+      pStrM .norm X (Char.ofNat (0x10000 + (hi - 0xD800) * 1024 + (lo - 0xDC00)) :: acc) := by
+  obtain ⟨h1, h2, h3, h4, hv⟩ := u4_value hi (by omega)
+  obtain ⟨l1, l2, l3, l4, lv⟩ := u4_value lo (by omega)
+  show pStrM .norm ('\\' :: 'u' :: hexDigit (hi / 4096) :: hexDigit (hi / 256 % 16) ::
+    hexDigit (hi / 16 % 16) :: hexDigit (hi % 16) :: '\\' :: 'u' :: hexDigit (lo / 4096) ::
+    hexDigit (lo / 256 % 16) :: hexDigit (lo / 16 % 16) :: hexDigit (lo % 16) :: X) acc = _
+  rw [pStrM_bs_u, pStrM_u_lt _ _ _ _ _ _ h1 (by decide), pStrM_u_lt _ _ _ _ _ _ h2 (by decide),
+    pStrM_u_lt _ _ _ _ _ _ h3 (by decide), pStrM_u_last_hi _ _ _ _ h4 (by omega), hv]
+  have e1 : pStrM (.hi1 hi) ('\\' :: 'u' :: hexDigit (lo / 4096) :: hexDigit (lo / 256 % 16) ::
+      hexDigit (lo / 16 % 16) :: hexDigit (lo % 16) :: X) acc =
+      pStrM (.u 0 0 (some hi)) (hexDigit (lo / 4096) :: hexDigit (lo / 256 % 16) ::
+      hexDigit (lo / 16 % 16) :: hexDigit (lo % 16) :: X) acc := by
+    simp [pStrM]
+  rw [e1, pStrM_u_lt _ _ _ _ _ _ l1 (by decide), pStrM_u_lt _ _ _ _ _ _ l2 (by decide),
+    pStrM_u_lt _ _ _ _ _ _ l3 (by decide), pStrM_u_last_lo _ _ _ _ _ l4 (by omega), lv]
+
+theorem char_valid (c : Char) : c.toNat < 0xD800 ∨ (0xDFFF < c.toNat ∧ c.toNat < 0x110000) := c.valid
+
+/-- One escaped character is read back as that character — for either `ensure_ascii` setting. -/
+theorem pStrM_escChar (ascii : Bool) (c : Char) (X acc : List Char) :
+    pStrM .norm (escChar ascii c ++ X) acc = pStrM .norm X (c :: acc) := by
   unfold escChar
   split
   · next h => subst h; simp [pStrM, simpleEsc]
@@ -59,21 +116,24 @@ theorem pStrM_escChar (c : Char) (X acc : List Char) :
   · next h => subst h; simp [pStrM, simpleEsc]
   split
   · next h => subst h; simp [pStrM, simpleEsc]
+  have hval := char_valid c
   split
-  · next hq hb _ _ _ _ _ h32 =>
-    have h1 : c.toNat / 16 < 16 := by omega
-    have h2 : c.toNat % 16 < 16 := by omega
-    have hn : ((0 * 16 + 0) * 16 + c.toNat / 16) * 16 + c.toNat % 16 = c.toNat := by omega
-    show pStrM .norm ('\\' :: 'u' :: hexDigit 0 :: hexDigit 0 :: hexDigit (c.toNat / 16) ::
-      hexDigit (c.toNat % 16) :: X) acc = _
-    rw [pStrM_bs_u, pStrM_u_lt _ _ _ _ _ _ (by decide) (by decide),
-      pStrM_u_lt _ _ _ _ _ _ (by decide) (by decide), pStrM_u_lt _ _ _ _ _ _ h1 (by decide),
-      pStrM_u_last _ _ _ _ h2 (by omega), hn, Char.ofNat_toNat]
-  · next hq hb _ _ _ _ _ h32 =>
+  · split
+    · next hlt =>
+      rw [pStrM_u4_bmp c.toNat X acc (by omega), Char.ofNat_toNat]
+    · next hge =>
+      have hv : c.toNat - 0x10000 < 0x100000 := by omega
+      rw [List.append_assoc, pStrM_u4_pair _ _ X acc (by omega) (by omega)]
+      have : 0x10000 + (0xD800 + (c.toNat - 0x10000) / 1024 - 0xD800) * 1024 +
+          (0xDC00 + (c.toNat - 0x10000) % 1024 - 0xDC00) = c.toNat := by omega
+      rw [this, Char.ofNat_toNat]
+  · next hq hb _ _ _ _ _ hesc =>
+    have h32 : ¬ c.toNat < 32 := by
+      intro h; apply hesc; simp [h]
     simp [pStrM, hq, hb, h32]
 
-theorem pStrM_escStr (cs : List Char) : ∀ (X acc : List Char),
-    pStrM .norm (escStr cs ++ '"' :: X) acc = .ok (acc.reverse ++ cs) X := by
+theorem pStrM_escStr (ascii : Bool) (cs : List Char) : ∀ (X acc : List Char),
+    pStrM .norm (escStr ascii cs ++ '"' :: X) acc = .ok (acc.reverse ++ cs) X := by
   induction cs with
   | nil => intro X acc; simp [escStr, pStrM]
   | cons c cs ih =>
@@ -83,8 +143,8 @@ theorem pStrM_escStr (cs : List Char) : ∀ (X acc : List Char),
     simp
 
 /-- `scanstring` reads back what `prStr` printed (after the opening quote). -/
-theorem pStr_escStr (s : String) (X : List Char) :
-    pStr (escStr s.toList ++ '"' :: X) [] = .ok s.toList X := by
+theorem pStr_escStr (ascii : Bool) (s : String) (X : List Char) :
+    pStr (escStr ascii s.toList ++ '"' :: X) [] = .ok s.toList X := by
   simp [pStr, pStrM_escStr]
 
 /-! ### Integers -/
@@ -152,16 +212,26 @@ def okTail : List Char → Prop
   | [] => True
   | c :: _ => c.isDigit = false ∧ c ≠ '.' ∧ c ≠ 'e' ∧ c ≠ 'E'
 
-theorem readNat_okTail (a : Nat) (rest : List Char) (h : okTail rest) : readNat a rest = (a, rest) := by
+/-- The input does not go on with a digit. -/
+def ndHead : List Char → Prop
+  | [] => True
+  | c :: _ => c.isDigit = false
+
+theorem okTail_ndHead (rest : List Char) (h : okTail rest) : ndHead rest := by
+  cases rest with
+  | nil => trivial
+  | cons c r => exact h.1
+
+theorem readNat_ndHead (a : Nat) (rest : List Char) (h : ndHead rest) : readNat a rest = (a, rest) := by
   cases rest with
   | nil => simp [readNat]
-  | cons c r => simp [okTail] at h; simp [readNat, h.1]
+  | cons c r => simp only [ndHead] at h; simp [readNat, h]
 
-theorem isFloatTail_okTail (rest : List Char) (h : okTail rest) : isFloatTail rest = false := by
-  unfold isFloatTail
+theorem isExpTail_okTail (rest : List Char) (h : okTail rest) : isExpTail rest = false := by
+  unfold isExpTail
   split <;> simp_all [okTail]
 
-theorem pNat_natDigits (n : Nat) (rest : List Char) (h : okTail rest) :
+theorem pNat_natDigits' (n : Nat) (rest : List Char) (h : ndHead rest) :
     pNat (natDigits n ++ rest) = .ok n rest := by
   obtain ⟨c, ds, he, hall, hval, hz, hnz⟩ := digitsAux_spec n n [] (Nat.le_refl _)
   simp only [natDigits, he, List.append_nil, List.cons_append, pNat]
@@ -172,14 +242,31 @@ theorem pNat_natDigits (n : Nat) (rest : List Char) (h : okTail rest) :
   · have hc : c.isDigit = true := hall c (by simp)
     have := readNat_digits (c :: ds) 0 rest hall
     simp only [List.cons_append] at this
-    simp only [hnz h0, if_false, hc, if_true, this, hval, readNat_okTail _ _ h]
+    simp only [hnz h0, if_false, hc, if_true, this, hval, readNat_ndHead _ _ h]
+
+theorem pNat_natDigits (n : Nat) (rest : List Char) (h : okTail rest) :
+    pNat (natDigits n ++ rest) = .ok n rest :=
+  pNat_natDigits' n rest (okTail_ndHead rest h)
+
+theorem natDigits_isDigit (n : Nat) : ∀ x ∈ natDigits n, x.isDigit = true := by
+  obtain ⟨c, ds, he, hall, _⟩ := digitsAux_spec n n [] (Nat.le_refl _)
+  have e : natDigits n = c :: ds := by simpa [natDigits] using he
+  rw [e]; exact hall
+
+theorem natDigits_value (n : Nat) : (natDigits n).foldl dstep 0 = n := by
+  obtain ⟨c, ds, he, _, hval, _⟩ := digitsAux_spec n n [] (Nat.le_refl _)
+  have e : natDigits n = c :: ds := by simpa [natDigits] using he
+  rw [e]; exact hval
 
 theorem natDigits_head (n : Nat) : ∃ c ds, natDigits n = c :: ds ∧ c.isDigit = true := by
   obtain ⟨c, ds, he, hall, _⟩ := digitsAux_spec n n [] (Nat.le_refl _)
   exact ⟨c, ds, by simpa [natDigits] using he, hall c (by simp)⟩
 
 theorem pNumber_natDigits (neg : Bool) (n : Nat) (rest : List Char) (h : okTail rest) :
-    pNumber neg (natDigits n ++ rest) = .ok (.int (if neg then -(Int.ofNat n) else Int.ofNat n)) rest := by
-  simp [pNumber, pNat_natDigits n rest h, isFloatTail_okTail rest h]
+    pNumber neg (natDigits n ++ rest) = .ok (.int (sgn neg n)) rest := by
+  simp only [pNumber, pNat_natDigits n rest h]
+  split
+  · simp [okTail] at h
+  · simp [isExpTail_okTail rest h]
 
 end Pypyr.Codec.Json
